@@ -19,8 +19,9 @@ DATA = common.REPO / "tests" / "data"
 MODELS = {
     "write": ("writemodel", "WriteTestModel.aird"),
     "empty52": ("decl/empty_project_52", "empty_project_52.aird"),
-    "filtering": ("filtering", "filtering.aird"),
+    "filtering": ("filtering", "Filtered Project.aird"),
     "pvmt": ("pvmt", "PVMTTest.aird"),
+    "parser": ("parser", "TestItems.aird"),
     "libtest": ("Library Test", "Library Test.aird"),
     "libproj": ("Library Project", "Library Project.aird"),
     "t50": ("melodymodel/5_0", "Melody Model Test.aird"),
